@@ -17,7 +17,9 @@ RULE = (
     "variable, and dependencies on other generated modules (chains, "
     "diamonds, cycles; inner requires use `as _alias`). Importer sessions "
     "apply every form (require M, as A, import [a, b as c] incl. a private "
-    "name, unqualified, inside a function, repeated, several modules) in "
+    "name, an empty list and a symbol listed twice under different aliases, "
+    "unqualified, inside a function, repeated, several modules; some "
+    "modules define a public symbol with their own name) in "
     "random order. Oracle: a Python model of the module system: the set of "
     "names visible in the importer (ls()) after each step is the set before "
     "plus exactly the requested names; module objects expose exactly the "
@@ -86,6 +88,9 @@ def gen_graph(ch):
                 m.values[p] = ch.int(0, 99)
             else:
                 m.funcs[p] = ch.int(100, 199)
+        if ch.bool(0.25):
+            # a public definition with the module's own name
+            m.values[m.name] = ch.int(0, 99)
         m.private = ch.sample(PRIVATE, ch.int(0, 2))
         # acyclic dependencies point to higher-numbered modules
         later = mods[i + 1:]
@@ -447,9 +452,14 @@ def gen_steps(ch, mods):
         elif form == "import":
             pub = sorted(specs[m].public_names())
             items = []
-            for n in ch.sample(pub, ch.int(1, min(3, len(pub)))):
+            for n in ch.sample(pub, ch.int(0, min(3, len(pub)))):
                 used_alias += 1
                 items.append((n, f"im{used_alias}" if ch.bool() else None))
+            if items and ch.bool(0.35):
+                # the same symbol once more, under another alias
+                used_alias += 1
+                items.insert(ch.int(0, len(items)),
+                             (ch.choice(items)[0], f"im{used_alias}"))
             if ch.bool(0.3):
                 items.append((ch.choice(PRIVATE), None))
             steps.append(("import", m, items))
